@@ -19,7 +19,10 @@ META = dict(
           "results must be bit-identical.  A Z-accounting monitor checks every solution vertex of general-position "
           "inputs against the input labels and the callback log.  DoSplitOp is reached only by inputs that are not in general "
           "position (micro self-intersections left by rounding); a stream of such small-coordinate slivers is run through both "
-          "builds (x,y judged) and its Z accounting is recorded, not judged."),
+          "builds (x,y judged) and its Z accounting is recorded, not judged.  Both comparisons run through every entry point that "
+          "can produce Z: Clipper64 and ClipperD (descaled callback arguments checked), each through the paths and the polytree "
+          "Execute overloads with and without the open-paths result, with the callback set, set after / used before another "
+          "overload, removed again, or set late on the same object; ClipperOffset::SetZCallback likewise; RectClip."),
     note=("Trusted: Coq kernel; extraction; C++ harness with private access; generators.  Not proved: geometry equality "
           "for the unmodelled engine and completeness of SetZ call sites (both validated by the two-build comparison and "
           "the accounting monitor)."),
@@ -304,12 +307,19 @@ def both(ctx, exes, lines, op, variants=('plain', 'z')):
             return None
         outs[b] = o
     ref = variants[0]
+    nexc = 0
     for i, l in enumerate(lines):
         ctx.count('evaluations')
         ctx.count('compared.' + op)
         a = split_out(outs[ref][i])[0]
         for b in variants[1:]:
-            if split_out(outs[b][i])[0] != a or a.startswith('EXC'):
+            if outs[b][i].startswith('EXC') and not a.startswith('EXC'):
+                nexc += 1
+                ctx.count('exceptions_in_one_build_only.' + op)
+                if nexc <= 2:           # vf.Ctx keeps 50 violations: one noisy key must not hide the others
+                    ctx.violation('z.exception.' + op, '%s: build %s throws (%s) where build %s returns %s ...' % (op, b, outs[b][i][:120], ref, a[:80]),
+                              replay=dict(kind='line', line=l, builds=[ref, b]))
+            elif split_out(outs[b][i])[0] != a or a.startswith('EXC'):
                 ctx.violation('z.xy-differs.' + op, '%s: x,y results of builds %s and %s differ (or an exception): %s ... vs %s ...' % (op, ref, b, a[:100], split_out(outs[b][i])[0][:100]),
                               replay=dict(kind='line', line=l, builds=[ref, b]))
     return outs[variants[-1]]
@@ -356,6 +366,76 @@ def run_bool(ctx, exes, cases, asan_exe=None):
                           C=[[(x / 4.0, y / 4.0, zz) for x, y, zz in p] for p in c['C']])
                 monitor(ctx, cd, cb, dz, l, z, num=float.fromhex, scale=128)
     return nontrivial
+
+
+FORMS = ['paths(closed)', 'paths(closed,open)', 'tree', 'tree(open)']
+HISTS = ['execute', 'other-overload-first', 'callback-removed-before', 'callback-set-late']
+
+
+def run_entry_points(ctx, exes, cases):
+    """every Execute overload of Clipper64 and ClipperD (paths / polytree, with and without the open-paths result) and callback
+    histories on one object (set / other overload first / set, used, removed / set late): x,y of both builds on every case,
+    Z monitor on the general-position ones (for ClipperD including the descaled callback arguments)"""
+    rng = ctx.rng.fork(16)
+    q = lambda v: ('%d.%s' % (v // 4, ('0', '25', '5', '75')[v % 4])) if v >= 0 else ('-%d.%s' % ((-v) // 4, ('0', '25', '5', '75')[(-v) % 4]))
+    for kind in ('64', 'D'):
+        lines, meta = [], []
+        for ci, c in enumerate(cases):
+            if kind == 'D' and c['regime'] not in ('small', '1e3', '1e6', 'lattice'):
+                continue
+            for form in range(4):
+                for hist in range(4):
+                    cb = rng.range(1, 3) if (hist >= 2 or not rng.chance(1, 5)) else 0
+                    ct, fr = rng.choice(list(CT)), rng.below(4)
+                    if kind == '64':
+                        lines.append('BOOLX %d %d %d %d %d %d %d %d %d %s %s %s' % (form, hist, ct, fr, rng.below(2), rng.below(2), cb, 0, rng.below(1 << 30),
+                                                                                  fmtz(c['S']), fmtz(c['O']), fmtz(c['C'])))
+                    else:
+                        lines.append('BOOLDX %d %d 2 %d %d %d %d %d %d %d %s %s %s' % (form, hist, ct, fr, rng.below(2), rng.below(2), cb, 0, rng.below(1 << 30),
+                                                                                      fmtz(c['S'], q), fmtz(c['O'], q), fmtz(c['C'], q)))
+                    meta.append((ci, form, hist, 0 if hist == 2 else cb))
+        zo = both(ctx, exes, lines, 'entry' + kind)
+        if not zo:
+            continue
+        for (ci, form, hist, eff), l, z in zip(meta, lines, zo):
+            c = cases[ci]
+            lg = split_out(z)[2]
+            ctx.hist('entry_points_' + kind, '%s/%s' % (FORMS[form], HISTS[hist]))
+            if hist == 2 and lg[:1] != ['0'] and not z.startswith('EXC'):
+                ctx.violation('z.callback-after-removal', 'Clipper%s, %s: the callback removed with SetZCallback(nullptr) was still invoked %s times by the next Execute' % (kind, FORMS[form], lg[:1]),
+                              replay=dict(kind='line', line=l, builds=['z']))
+            if not c['gp'] or z.startswith('EXC'):
+                continue
+            before = len(ctx.violations)
+            if kind == '64':
+                monitor(ctx, c, eff, 0, l, z)
+            else:
+                cd = dict(S=[[(x / 4.0, y / 4.0, zz) for x, y, zz in p] for p in c['S']], O=[[(x / 4.0, y / 4.0, zz) for x, y, zz in p] for p in c['O']],
+                          C=[[(x / 4.0, y / 4.0, zz) for x, y, zz in p] for p in c['C']])
+                monitor(ctx, cd, eff, 0, l, z, num=float.fromhex, scale=128)
+            ctx.count('entry_point_runs_monitored')
+            if eff and lg[:1] not in ([], ['0']):
+                ctx.count('entry_point_runs_with_callbacks')
+            for v in ctx.violations[before:]:      # say which entry point
+                v['what'] = 'Clipper%s %s / %s: %s' % (kind, FORMS[form], HISTS[hist], v['what'])
+
+
+def run_offset_hist(ctx, exes, n):
+    """ClipperOffset::SetZCallback: callback removed / set late between two Executes of one object"""
+    rng = ctx.rng.fork(17)
+    lines = []
+    for i in range(n):
+        ps = label(rng, polys.rand_path_set(rng, 120))
+        for hist in (0, 1, 2):
+            lines.append('OFFSX %d %d %d %s %s %s %d %d %d %d %s' % (hist, rng.below(4), rng.below(5), rng.choice(['2', '4.5']), rng.choice(['0', '0.25']),
+                                                                     repr(float(rng.choice([-7.5, -2, 1, 3.25, 10]))), rng.below(2), rng.below(2), rng.range(1, 2), rng.below(1 << 30), fmtz(ps)))
+    zo = both(ctx, exes, lines, 'offset-hist')
+    for l, z in zip(lines, zo or []):
+        lg = split_out(z)[2]
+        if l.split()[1] == '1' and lg[:1] != ['0'] and not z.startswith('EXC'):
+            ctx.violation('z.callback-after-removal', 'ClipperOffset: the callback removed with SetZCallback(nullptr) was still invoked by the next Execute', replay=dict(kind='line', line=l, builds=['z']))
+        if l.split()[1] == '2' and lg[:1] not in ([], ['0']):
+            ctx.count('offset_late_callback_runs_with_callbacks')
 
 
 def run_offset(ctx, exes, n):
@@ -528,6 +608,8 @@ def run(ctx):
         ctx.hist('bool_open_paths', len(c['O']))
     kbad = run_kernels(ctx, exes['z'], (3000 if ctx.quick else 60000) * mult)
     nontrivial = run_bool(ctx, exes, cases, asan)
+    run_entry_points(ctx, exes, cases)
+    run_offset_hist(ctx, exes, (60 if ctx.quick else 1500) * mult)
     sl = gen_slivers(ctx, (6000 if ctx.quick else 120000) * mult)
     gp, fails = vf.par_lines(region, ['GENPOS ' + vf.fmt_paths(xy(c['S']) + xy(c['C'])) for c in sl])
     if fails:
@@ -548,7 +630,9 @@ def run(ctx):
                        'non-trivial = boolean runs in which the callback was called at least once; Z monitor on the inputs the extracted Coq predicate '
                        'general_position accepts (open paths are submitted closed, which is stricter); sliver stream: small-coordinate random polygons and zigzags of nearly '
                        'parallel edges (the inputs that reach DoSplitOp), x,y equality judged on all, Z accounting judged on the general-position ones and '
-                       'recorded (nongp.*) on the others; SPLITZ: real DoSplitOp on synthetic rings against the extracted do_split_op_z')
+                       'recorded (nongp.*) on the others; entry points: every case through all four Execute overloads (paths / polytree, with and without the open result) '
+                       'of Clipper64 and ClipperD x four callback histories on one object (set; other overload first; set, used, removed; set late), '
+                       'ClipperOffset with the callback removed / set late between two Executes; SPLITZ: real DoSplitOp on synthetic rings against the extracted do_split_op_z')
     ctx.cov['dosplitop_reachability'] = (
         'ClipperBase::DoSplitOp (FixSelfIntersects) repairs a proper crossing of two output-ring segments separated by one segment. Ring segments '
         'lie on input edges between rounded events (input vertices / crossings, displaced by < 1.5 units); in general position (base/GenPos.v: every '
